@@ -445,10 +445,11 @@ def compare(c, io_, drv):
             out.append(("spec", "file not open before reading"))
         if io_["err"] is None:
             n = len(c["samples"])
-            want_closed = True if take is None else drv["lazy"]["spec_closed"]
-            if io_["closed"] != want_closed:
-                out.append(("spec", "file closed=%s after %s next() calls on %d samples, expected %s" % (
-                    io_["closed"], "all" if take is None else take, n, want_closed)))
+            # the property: closed once the stream is exhausted (StopIteration seen: k > n).  That it
+            # is still open before that is compared with the model only (above), not demanded here.
+            if (take is None or take > n) and not io_["closed"]:
+                out.append(("spec", "file still open after the stream was exhausted (%s next() calls on %d samples)" % (
+                    "all" if take is None else take, n)))
             if not c["keep"] and any(not (-1 <= common.dec(x) < 1) for x in io_["out"]):
                 out.append(("spec", "normalised sample outside [-1,1)"))
     return out
@@ -587,12 +588,11 @@ def classify(c, io_, drv):
             return "chunks.%s:%s:chunk-length" % (st, c["fmt"])
         if io_["out"] != sp["out"]:
             same_sorted = all(sorted(a) == sorted(b) for a, b in zip(io_["out"], sp["out"]))
-            return "chunks.%s:%s:order=%s:%s" % (st, c["fmt"], c["order"],
-                                                "byte-order" if same_sorted else "bytes-differ")
+            return "chunks.%s:%s:%s" % (st, c["fmt"], "byte-order" if same_sorted else "bytes-differ")
         return "chunks.%s:%s:other" % (st, c["fmt"])
     if "out" not in io_:
         return "wav:%d:open-%s" % (c["bits"], io_.get("err"))
-    tag = "wav:%dbit:%dch:%s" % (c["bits"], c["channels"], "keep" if c["keep"] else "norm")
+    tag = "wav:%dbit:%s" % (c["bits"], "keep" if c["keep"] else "norm")
     if io_.get("err"):
         return tag + ":" + io_["err"]
     sp = drv.get("spec")
@@ -602,6 +602,6 @@ def classify(c, io_, drv):
         if io_["out"] != so:
             return tag + ":values"
         if [io_["rate"], io_["channels"], io_["bits"]] != [c["rate"], c["channels"], c["bits"]]:
-            return tag + ":header"
-        return tag + ":closed-state"
+            return "wav:header"
+        return "wav:closed-state"
     return tag + ":model-only"
